@@ -80,3 +80,69 @@ Proof.
         -- intros [[H _]|[_ [y [Ey Hy]]]]; [discriminate H|]. injection Ey as <-. exact Hy.
       * split; [intros H; discriminate H|intros [[H _]|[_ [y [Ey _]]]]; discriminate].
 Qed.
+
+(* ---- operation level ------------------------------------------------------------------------------ *)
+Lemma check_arglist_clean_conv ps ts st i :
+  Forall2 (fun p t => check_arg p t st = None) ps ts -> has_errors (check_arglist ps ts st i) = false.
+Proof.
+  intros F. revert i. induction F as [|p t ps ts H _ IH]; intros i; cbn [check_arglist]; [reflexivity|].
+  rewrite H. apply IH.
+Qed.
+
+Lemma Forall2_map_l {A B C} (f : A -> B) (R : B -> C -> Prop) l l' :
+  Forall2 R (map f l) l' <-> Forall2 (fun a c => R (f a) c) l l'.
+Proof.
+  revert l'. induction l as [|a l IH]; intros l'; cbn [map]; split; intros H; inversion H; subst; constructor;
+    try assumption; now apply IH.
+Qed.
+
+(* An operation passes the generic type-check iff it has exactly the documented number of operands
+   and each conforms to its documented kind. *)
+Theorem op_accept_exact o st : Forall tok_parsed (o_toks o) ->
+  (has_errors (default_typecheck o st) = false <->
+   Forall2 (fun k t => arg_ok k t st) (signature (o_cls o)) (o_toks o)).
+Proof.
+  intros Hp. rewrite <- P_matches_signature, Forall2_map_l. split.
+  - intros H. pose proof (typecheck_clean o st H) as F.
+    clear H. revert Hp. induction F as [|p t ps ts H _ IH]; intros Hp; constructor.
+    + apply check_arg_exact; [now inversion Hp|exact H].
+    + apply IH. now inversion Hp.
+  - intros F.
+    assert (F' : Forall2 (fun p t => check_arg p t st = None) (P_of (o_cls o)) (o_toks o)).
+    { clear -F Hp. induction F as [|p t ps ts H _ IH]; constructor.
+      - apply check_arg_exact; [now inversion Hp|exact H].
+      - apply IH. now inversion Hp. }
+    unfold default_typecheck, has_errors. rewrite existsb_app.
+    apply orb_false_iff. split.
+    + assert (L : List.length (P_of (o_cls o)) = List.length (o_toks o)).
+      { clear -F'. induction F'; cbn; congruence. }
+      unfold zlen. rewrite L, Z.ltb_irrefl. reflexivity.
+    + apply check_arglist_clean_conv, F'.
+Qed.
+
+(* ---- one step of the program-level check: exactly the documented program rules --------------------- *)
+Definition step_msgs (c : csettings) (t : tcstate) (o : op) : list msg :=
+  skipn (List.length (tc_msgs t)) (tc_msgs (typecheck_step c t o)).
+
+Lemma has_errors_app a b : has_errors (a ++ b) = has_errors a || has_errors b.
+Proof. unfold has_errors. apply existsb_app. Qed.
+
+Theorem typecheck_step_exact c t o :
+  has_errors (step_msgs c t o) = false <->
+  has_errors (op_typecheck o (tc_st t) (String.eqb (cs_mode c) "assemble")) = false /\
+  (is_data_op (o_cls o) && tc_seen_code t = false) /\
+  (cs_allow_interrupts c = true \/ interrupt_name o (tc_st t) = None) /\
+  (cs_no_debug_ops c && is_debugging_op (o_cls o) = false).
+Proof.
+  unfold step_msgs, typecheck_step. cbn [tc_msgs].
+  rewrite skipn_app, skipn_all, Nat.sub_diag. cbn [skipn app].
+  rewrite !has_errors_app.
+  destruct (is_data_op (o_cls o) && tc_seen_code t) eqn:E1;
+  destruct (cs_allow_interrupts c) eqn:E2;
+  destruct (cs_no_debug_ops c && is_debugging_op (o_cls o)) eqn:E4;
+  destruct (has_errors (op_typecheck o (tc_st t) (cs_mode c =? "assemble")%string)) eqn:E0;
+  try destruct (interrupt_name o (tc_st t)) eqn:E3; cbn;
+  split; intros H; try discriminate; try tauto;
+  try (destruct H as (H1 & H2 & [H3|H3] & H4); discriminate).
+  all: repeat split; auto.
+Qed.
